@@ -39,6 +39,10 @@ type c12Case struct {
 	GoMaxProcs int    `json:"gomaxprocs"`
 	Yield      int    `json:"yield_on_write"`
 	Inject     int    `json:"inject_unknown_channel_packets"`
+	// FastAck: the peer acknowledges a SETUP from inside the client's Write
+	// call (an instantly answering server), so that the acknowledgement can
+	// reach the reader before NewChannel has done anything after its write.
+	FastAck bool `json:"fast_ack"`
 	Note       string `json:"note,omitempty"`
 }
 
@@ -66,6 +70,11 @@ type c12Peer struct {
 	stop     chan struct{}
 	done     chan struct{}
 	logoutOK bool
+	stream    []byte // bytes written by the client and not yet cut into packets
+	streamOff int
+	garbled   string // set when the stream stopped parsing as packets
+	onGarbled func() // ends the run early (clients would wait for answers that never come)
+	fastAck   bool   // SETUPs are acknowledged by the transport hook already
 	// quiescence bookkeeping
 	submitted int64 // write records handed to the peer (atomic)
 	handled   int64 // write records processed (atomic)
@@ -107,19 +116,68 @@ func (p *c12Peer) queueResponse(ch uint16) {
 	}
 }
 
+// handle consumes one transport write. The peer reads a byte STREAM, like a
+// server behind a socket: packets are cut out of the concatenation of all
+// writes in arrival order, however the client distributes a packet over
+// write calls.
 func (p *c12Peer) handle(rec xport.WriteRec) {
-	h, err := xport.ParseHeader(rec.Data)
-	if err != nil {
-		return
-	}
 	p.mu.Lock()
 	defer p.mu.Unlock()
+	if p.garbled != "" {
+		return
+	}
+	p.stream = append(p.stream, rec.Data...)
+	for len(p.stream) >= 8 {
+		h, _ := xport.ParseHeader(p.stream)
+		if h.Length < 8 {
+			p.garbled = fmt.Sprintf("packet header with length %d at stream offset %d (header bytes % x)", h.Length, p.streamOff, p.stream[:8])
+			if p.onGarbled != nil {
+				p.onGarbled()
+			}
+			return
+		}
+		if len(p.stream) < int(h.Length) {
+			return
+		}
+		pkt := p.stream[:h.Length]
+		p.stream = p.stream[h.Length:]
+		p.streamOff += int(h.Length)
+		p.handlePacket(h, pkt)
+	}
+}
+
+func (p *c12Peer) handlePacket(h xport.Header, data []byte) {
+	rec := xport.WriteRec{Data: data}
+	// a header no client of this run can have produced means the stream is
+	// out of step (bytes of different packets were interleaved)
+	known := h.Channel == 0
+	for _, id := range p.setups {
+		if id == h.Channel {
+			known = true
+		}
+	}
+	okType := false
+	switch tds.PacketHeaderType(h.Type) {
+	case tds.TDS_BUF_SETUP:
+		okType, known = true, true
+	case tds.TDS_BUF_CLOSE, tds.TDS_BUF_NORMAL:
+		okType = true
+	}
+	if !known || !okType || h.Status&^xport.EOM != 0 {
+		p.garbled = fmt.Sprintf("packet at stream offset %d has header type %d status %#x channel %d length %d, which no client of this run sends", p.streamOff-int(h.Length), h.Type, h.Status, h.Channel, h.Length)
+		if p.onGarbled != nil {
+			p.onGarbled()
+		}
+		return
+	}
 	p.seen = append(p.seen, h)
 	switch tds.PacketHeaderType(h.Type) {
 	case tds.TDS_BUF_SETUP:
 		p.setups = append(p.setups, h.Channel)
-		p.pending[h.Channel] = append(p.pending[h.Channel], xport.Header{Type: byte(tds.TDS_BUF_PROTACK), Status: xport.EOM, Length: 8, Channel: h.Channel}.Bytes())
-		p.order = append(p.order, h.Channel)
+		if !p.fastAck {
+			p.pending[h.Channel] = append(p.pending[h.Channel], xport.Header{Type: byte(tds.TDS_BUF_PROTACK), Status: xport.EOM, Length: 8, Channel: h.Channel}.Bytes())
+			p.order = append(p.order, h.Channel)
+		}
 		// unsolicited traffic on channel 0 while channels are set up
 		p.queueResponse(0)
 		p.unsol++
@@ -135,6 +193,30 @@ func (p *c12Peer) handle(rec xport.WriteRec) {
 	}
 	body := p.partial[h.Channel]
 	p.partial[h.Channel] = nil
+	// every request of this run is one LANGUAGE package of 'q's (or the
+	// logout): a body that is anything else means bytes of different
+	// packets were mixed up
+	okBody := len(body) == 2 && body[0] == 0x71
+	if len(body) >= 6 && body[0] == 0x21 {
+		l := int(body[1]) | int(body[2])<<8 | int(body[3])<<16 | int(body[4])<<24
+		okBody = l == len(body)-5
+		for _, c := range body[6:] {
+			if c != 'q' {
+				okBody = false
+			}
+		}
+	}
+	if !okBody {
+		head := body
+		if len(head) > 24 {
+			head = head[:24]
+		}
+		p.garbled = fmt.Sprintf("message of %d bytes on channel %d is not the LANGUAGE package the client sent (starts % x)", len(body), h.Channel, head)
+		if p.onGarbled != nil {
+			p.onGarbled()
+		}
+		return
+	}
 	if len(body) > 0 && body[0] == 0x71 && h.Channel == 0 { // LOGOUT
 		p.pending[0] = append(p.pending[0], xport.Packet(byte(tds.TDS_BUF_RESPONSE), xport.EOM, 0, srv.Done(srv.TokDone, 0, 0, 0)))
 		p.order = append(p.order, 0)
@@ -285,11 +367,28 @@ func c12Run(c *Ctx, cs c12Case) {
 	peer := &c12Peer{tr: k.tr, in: make(chan xport.WriteRec, 1<<16), rnd: rt.NewRand(c.Seed, cs.Stream+"/peer"),
 		partial: map[uint16][]byte{}, pending: map[uint16][][]byte{}, sent: map[uint16][]int32{}, round: map[uint16]int{},
 		stop: make(chan struct{}), done: make(chan struct{}), toInject: cs.Inject, expectCh: cs.Channels, created: &created}
-	k.tr.OnWrite = func(rec xport.WriteRec) { atomic.AddInt64(&peer.submitted, 1); peer.in <- rec }
+	k.tr.OnWrite = func(rec xport.WriteRec) {
+		if cs.FastAck && len(rec.Data) == 8 && rec.Data[0] == byte(tds.TDS_BUF_SETUP) {
+			// acknowledge at once, on the writer's goroutine; the peer
+			// goroutine still books the SETUP (without queueing a second ack)
+			k.tr.Feed(xport.Header{Type: byte(tds.TDS_BUF_PROTACK), Status: xport.EOM, Length: 8, Channel: uint16(rec.Data[4])<<8 | uint16(rec.Data[5])}.Bytes())
+		}
+		atomic.AddInt64(&peer.submitted, 1)
+		peer.in <- rec
+	}
+	peer.fastAck = cs.FastAck
+	peer.onGarbled = k.cancel
 	atomic.StoreInt32(&k.tr.YieldOnWrite, int32(cs.Yield))
 	go peer.run()
 
-	watchdog := time.AfterFunc(120*time.Second, func() {
+	var watchdogFired, newChannelStuck int32
+	watchdog := time.AfterFunc(45*time.Second, func() {
+		atomic.StoreInt32(&watchdogFired, 1)
+		for _, g := range rt.Goroutines() {
+			if g.Has("tds.(*Conn).NewChannel") && g.Parked() {
+				atomic.AddInt32(&newChannelStuck, 1)
+			}
+		}
 		fmt.Fprintf(os.Stderr, "C12 watchdog: dumping goroutines\n")
 		for _, g := range rt.Goroutines() {
 			fmt.Fprintln(os.Stderr, g.Raw)
@@ -406,6 +505,22 @@ func c12Run(c *Ctx, cs c12Case) {
 	defer peer.mu.Unlock()
 	// ------------------------------------------------------------ oracle
 	fail := func(sig, detail string) { r.Violate(sig, detail, cs) }
+	if peer.garbled != "" {
+		fail("outgoing/stream-does-not-parse-as-packets", "the bytes the client wrote do not parse as consecutive packets: "+peer.garbled)
+		return
+	}
+	if atomic.LoadInt32(&watchdogFired) != 0 && atomic.LoadInt32(&newChannelStuck) > 0 && len(peer.setups) == cs.Channels {
+		inv := c0.invalid
+		for _, cl := range clients {
+			inv += cl.invalid
+		}
+		fail("newchannel-blocked-although-acknowledged", fmt.Sprintf("%d NewChannel call(s) were still parked 45 s after the peer had acknowledged all %d SETUP packets (ids %v); %d 'invalid channel' errors were seen although only %d packets for unknown channels had been injected", atomic.LoadInt32(&newChannelStuck), len(peer.setups), peer.setups, inv, peer.injected))
+		return
+	}
+	if atomic.LoadInt32(&watchdogFired) != 0 {
+		r.Inconclusive("C12 repetition did not finish within 45 s (goroutine dump in the worker's stderr): %+v", cs)
+		return
+	}
 	if !idle {
 		r.Inconclusive("reader did not become idle at the end of the run (%+v)", cs)
 		return
@@ -490,7 +605,15 @@ func c12Run(c *Ctx, cs c12Case) {
 		return
 	}
 	r.Count("packages_routed", int64(total))
-	// (3) outgoing headers: per id > 0 consecutive packet numbers, types
+	// (3) outgoing stream parses as packets; per id > 0 consecutive packet numbers, types
+	if peer.garbled != "" {
+		fail("outgoing/stream-does-not-parse-as-packets", "the bytes the client wrote do not parse as consecutive packets: "+peer.garbled)
+		return
+	}
+	if len(peer.stream) != 0 {
+		fail("outgoing/stream-does-not-parse-as-packets", fmt.Sprintf("%d bytes of an incomplete packet are left at the end of the run", len(peer.stream)))
+		return
+	}
 	next := map[uint16]int{}
 	h := fnv.New64a()
 	for _, hd := range peer.seen {
@@ -567,6 +690,12 @@ func runC12(c *Ctx) {
 			GoMaxProcs: []int{1, 2, 4, 16}[rnd.Intn(4)],
 			Yield:      rnd.Intn(3),
 			Inject:     rnd.Intn(6),
+			FastAck:    rnd.Bool(),
+		}
+		if i%3 == 2 {
+			// setup storm: many channels, hardly any traffic - the creation
+			// phase itself is the workload
+			cs.Channels, cs.Rounds, cs.FastAck = 16, 1, true
 		}
 		if i < 2 {
 			r.Sample("repetition", cs)
